@@ -5,7 +5,7 @@
    warp2 = FlowFields.exp as specified / as coded / FlowFields.warp_image (Model/FlowRepr.v on Model/Flow.v, Model/Sampler.v). *)
 From Coq Require Import ZArith QArith Qcanon List Lia.
 From DV Require Import Base.Field Base.FieldFacts Base.LinAlg Base.QcInst Model.Enums Model.Homog Model.Grid Model.Sampler
-  Model.SamplerQc Model.Flow Model.FlowQc Model.FlowRepr Gen.GridT Proofs.C11Interp Proofs.C11Compose Proofs.C11Expv
+  Model.SamplerQc Model.Flow Model.FlowQc Model.FlowRepr Gen.GridT Gen.FlowFields Proofs.C11Interp Proofs.C11Compose Proofs.C11Expv
   Proofs.C13Compose Proofs.C10Axes Proofs.C10Conv Proofs.C10Repr Proofs.C10Conv3 Proofs.C10Sample Proofs.C10SampleLin Proofs.C10SampleLin3 Proofs.C10Spec.
 Import ListNotations.
 
@@ -161,6 +161,18 @@ Theorem C10_transform_vectors_closed_forms :
 Proof.
   intros A B n s c d HW. split; intros Hw **; [now apply (gvecs_spec2 K Kf Kc) | now apply (gvecs_spec3 K Kf Kc)].
 Qed.
+
+(* 10. the glue of data/flow.py traced from the source (Gen/FlowFields.v: FlowFields methods run on symbolic tensors and grids,
+       expv / warp_image / ImageBatch.sample recorded) makes the choices the model makes: which cube representation and flag
+       exp and warp_image work in, that the tensor handed to expv IS the converted one and the result is converted back, that
+       sample re-scales the vectors of every representation to the new grids (axes itself is checked structurally against
+       Grid.transform_vectors item by item for all 16 pairs) *)
+Theorem C10_flowfields_glue_is_model :
+  forall A : axes,
+  gen_ff_exp_ac A = axes_ac A /\ gen_ff_exp_cube A = cube_of (axes_ac A) /\ gen_ff_exp_restores A = true /\
+  gen_ff_warp_ac A = axes_ac A /\ gen_ff_warp_coords_ac A = axes_ac A /\ gen_ff_warp_cube A = cube_of (axes_ac A) /\
+  gen_ff_sample_rescales A = true.
+Proof. intros []; repeat split; reflexivity. Qed.
 End Statements.
 
 Print Assumptions C10_axes_roundtrip.
@@ -182,6 +194,7 @@ Print Assumptions C10_sample_vectors_repr_independent.
 Print Assumptions C10_sample_commutes_with_axes_2d.
 Print Assumptions C10_sample_commutes_with_axes_3d.
 Print Assumptions C10_transform_vectors_closed_forms.
+Print Assumptions C10_flowfields_glue_is_model.
 
 (* regression witness: the variant that exponentiates the UNCONVERTED tensor (the defect repaired in /repo 245f8d5) is
    told apart from the specification -- WORLD axes on a 3 x 2 anisotropic rotated grid *)
